@@ -370,6 +370,12 @@ def sdss_objid(run, camcol, field, objnum, rerun=301, skyversion=None,
             firstfield = np.array([firstfield], dtype=np.int64)
 
     #
+    # Narrower integer types (e.g. from FITS tables) would overflow below.
+    #
+    run, camcol, field, objnum, rerun, skyversion, firstfield = [
+        np.asarray(a).astype(np.int64)
+        for a in (run, camcol, field, objnum, rerun, skyversion, firstfield)]
+    #
     # Check that all inputs have the same shape.
     #
     if run.shape != camcol.shape:
